@@ -211,3 +211,25 @@ class Link:
             elif ch == 3:
                 cuts = [len(data) - 1]
         dst.peer_send(data, cuts)
+
+
+def autoconnect(link: "Link"):
+    """Connector thread: whenever both endpoints are enabled and the line is down on both sides, the TCP connection
+    gets established (the active side's connect succeeds at once).  Runs until the execution ends."""
+    s = vrt.SCHED
+
+    def ready():
+        a, b = link.a, link.b
+        return a.enabled and b.enabled and not a.link_up and not b.link_up
+
+    def loop():
+        while True:
+            s.block(ready, None, "link-connector")
+            link.a.eof = link.b.eof = False
+            link.a.peer_connect()
+            link.b.peer_connect()
+            s.block(lambda: link.a.link_up and link.b.link_up, s.clock + 5.0, "link-connector-up")
+
+    t = vrt.Thread(target=loop, name="link-connector")
+    t.start()
+    return t
